@@ -582,6 +582,66 @@ def _flow_table(run, PV, D, dbo, g):
                               where=dbo.loc(lf.node.ast) if lf.node.ast is not None else dbo.loc(),
                               message=f"_do_block_operation, case [{desc}]: {len(sends)} exchanges between the block header and its brothers (the brother-list metadata is sent once)")
     run.floor("R9", "flow cases of _do_block_operation", n_cases, 20)
+    # "the latest answer": the variable a test of the operation byte reads has been bound again after every exchange that can precede the test
+    # (a fresh answer put into another local leaves the test looking at the previous one)
+    inloop = {id(x) for st_ in H.ast.body for x in ast.walk(st_)}
+    noexc = lambda a, b: not g.is_exc_edge(a, b)   # noqa: E731
+    X = [cn for c in A.own_nodes(dbo) if isinstance(c, ast.Call) and id(c) in inloop and call_name(c) in ("_send_block_header", "_send_command") for cn in g.nodes_of(c)]
+    defs_all = PV.defs(dbo, D)
+    n_tests = 0
+    for T in g.nodes:
+        if T.kind != "cond" or id(T.ast) not in inloop:
+            continue
+        cp = cmp_parts(T.ast)
+        if cp is None:
+            continue
+        l, op, r = cp
+        if not (op in ("==", "!=") and _strip(norm(r)).startswith("ops.")):
+            continue
+        # the operation byte may first be put into a local (`final_op = response[1][OP]`): the reading point is that assignment
+        points = []
+        if isinstance(l, ast.Subscript):
+            points.append((T, l))
+        elif isinstance(l, ast.Name):
+            for d_ in defs_all.get(l.id, []):
+                if d_.cnode is not None and isinstance(d_.value, ast.Subscript) and id(d_.value) in inloop:
+                    points.append((d_.cnode, d_.value))
+        for T_, l_ in points:
+            _latest_point(run, g, dbo, H, X, defs_all, noexc, T_, l_, T)
+            n_tests += 1
+        continue
+        root = l
+        n_tests += 1
+        dnodes = {d.cnode for d in defs_all.get(root.id, []) if d.cnode is not None}
+        for x in X:
+            if x in dnodes:
+                continue
+            others = set(X) - {x}
+            p_ = g.witness_path(x, T, avoid=dnodes | others | {H}, edge_ok=noexc)
+            run.check("R9", p_ is None, f"`{root.id}` tested at line {T.lineno} holds the answer of the exchange before it", key=f"_do_block_operation|latest|{T.lineno}|{x.lineno}",
+                      where=dbo.loc(T.ast), message=f"the test `{norm(T.ast)[:60]}` can be reached from the exchange at line {x.lineno} without `{root.id}` having been bound again: "
+                      "it looks at the answer of an earlier exchange (e.g. after an empty brother list the device's SUCCESS / PARTIAL / next-block request is lost and the "
+                      "operation ends in `unexpected state` or goes on sending to a device that has finished)", witness=g.describe_path(p_) if p_ else None)
+    run.floor("R9", "operation-byte tests inside the block loop", n_tests, 1)
+
+
+def _latest_point(run, g, dbo, H, X, defs_all, noexc, T, l, Ttest):
+    root = l
+    while isinstance(root, ast.Subscript):
+        root = root.value
+    if not isinstance(root, ast.Name):
+        return
+    dnodes = {d.cnode for d in defs_all.get(root.id, []) if d.cnode is not None}
+    for x in X:
+        if x in dnodes:
+            continue
+        others = set(X) - {x}
+        p_ = g.witness_path(x, T, avoid=dnodes | others | {H}, edge_ok=noexc)
+        run.check("R9", p_ is None, f"`{root.id}` read at line {T.lineno} holds the answer of the exchange before it", key=f"_do_block_operation|latest|{T.lineno}|{x.lineno}",
+                  where=dbo.loc(Ttest.ast), message=f"the test `{norm(Ttest.ast)[:60]}` (reading `{norm(l)[:40]}` at line {T.lineno}) can be reached from the exchange at line {x.lineno} "
+                  f"without `{root.id}` having been bound again: it looks at the answer of an earlier exchange (e.g. after an empty brother list the device's SUCCESS / PARTIAL / "
+                  "next-block request is lost and the operation ends in `unexpected state` or goes on sending to a device that has finished)",
+                  witness=g.describe_path(p_) if p_ else None)
 
 
 def _header_flow(run, PV, D, sbh):
